@@ -640,23 +640,13 @@ func allPathsCross(fn *ssa.Function, earl []ssa.Instruction, l ssa.Instruction) 
 	if blocked[entry] {
 		return true
 	}
-	seen := map[*ssa.BasicBlock]bool{entry: true}
-	work := []*ssa.BasicBlock{entry}
-	for len(work) > 0 {
-		b := work[len(work)-1]
-		work = work[:len(work)-1]
+	reached := searchEdges(entry, nil, func(b, pred *ssa.BasicBlock) (bool, bool) {
 		if b == lb {
-			return false
+			return true, false
 		}
-		for _, s := range b.Succs {
-			if blocked[s] || seen[s] {
-				continue
-			}
-			seen[s] = true
-			work = append(work, s)
-		}
-	}
-	return true
+		return false, blocked[b] && b != entry
+	})
+	return !reached
 }
 
 // IsCallTo builds an instruction predicate.
@@ -726,31 +716,15 @@ func PathAvoidingEdges(from *ssa.BasicBlock, must []ssa.Instruction, to ssa.Inst
 			blockedAt[m.Block()] = i
 		}
 	}
-	seen := map[*ssa.BasicBlock]bool{from: true}
-	work := []*ssa.BasicBlock{from}
-	for len(work) > 0 {
-		b := work[len(work)-1]
-		work = work[:len(work)-1]
+	return searchEdges(from, removed, func(b, pred *ssa.BasicBlock) (bool, bool) {
 		bi, blocked := blockedAt[b]
 		if b == tb {
 			if !blocked || bi > ti {
-				return true
+				return true, false
 			}
 		}
-		if blocked {
-			continue
-		}
-		for _, s := range b.Succs {
-			if removed[Edge{b, s}] {
-				continue
-			}
-			if !seen[s] {
-				seen[s] = true
-				work = append(work, s)
-			}
-		}
-	}
-	return false
+		return false, blocked
+	})
 }
 
 // MustCallSites lists the instructions of fn that are a call matching `match`, or a call to a
